@@ -117,10 +117,14 @@ class Known:
                     self.entries.append(e)
 
     def match(self, key):
+        # a key may end in "~<operand kind>" (strided, float32, ...): a finding listed without the suffix covers every kind,
+        # one listed with it only that kind
+        cands = (key, key.rsplit("~", 1)[0]) if "~" in key else (key,)
         for e in self.entries:
             for pat in e.get("keys", []):
-                if key == pat or fnmatch.fnmatchcase(key, pat):
-                    return e
+                for k in cands:
+                    if k == pat or fnmatch.fnmatchcase(k, pat):
+                        return e
         return None
 
 
